@@ -1120,6 +1120,12 @@ func genOp(r *common.Rand, u *universe, kind string, h *hint) Op {
 	if (kind == "mem" || isFile) && o.K != "Q" && r.Chance(1, 10) {
 		o.Var = 1 + r.Intn(2)
 	}
+	if kind == "oci" && (o.K == "F" || o.K == "E" || o.K == "T" || o.K == "D") && !u.g.Nodes[node].IsManifest() &&
+		u.g.Nodes[node].Desc.MediaType != "application/octet-stream" && r.Chance(1, 8) {
+		// the descriptor the store itself hands out for a plain blob: Resolve(<digest>) reports
+		// application/octet-stream (resolveBlob), whatever media type the blob was pushed with
+		o.Var = 2
+	}
 	if isFile && (o.K == "P" || o.K == "F" || o.K == "E" || o.K == "T") {
 		o.Name = homeName(node)
 		if r.Chance(1, 4) {
